@@ -71,9 +71,22 @@
      C07_host_fns_real, C07_host_fns_special_empty_string
                               the per-string host hypothesis for the REAL host functions under IdnaOK on (non-empty)
                               scalar-value strings; on the empty string it does not follow from IdnaOK (witness)
-   The gap: the pathname setter, host / hostname on file URLs (class 4 of Known_C07 covers them all), inputs and href
-   values whose scheme is "file", href values whose URL exceeds u32::MAX bytes, and host_parse_ok in place of
-   hosts_agree.
+     C07_pathname_standard_closed, C07_pathname_known_classes, C07_pathname_equiv
+                              the Standard's pathname setter in closed form (path start / path states with a state
+                              override); pathname on EVERY corrS pair (authority, no host, opaque path) and every value
+                              outside classes 1, 3, 4, 5, 9: the Standard's, no hypothesis on the host functions; the
+                              exclusions of the path equivalence lie inside classes 1 and 3 as computed on the raw value
+     C07_ten_setters_partial, C07_ten_histories, C07_ten_all, C07_statement_ten_all
+                              ALL TEN setters: one step, all histories, from every parsed start URL, and in the shape
+                              of C07_statement
+     C07_hostname_host_equiv_on, C07_statement_on, C07_real_host_parse_ok_on, C07_statement_model, C07_model_histories
+                              the same three clauses under the host hypothesis restricted to scalar-value strings,
+                              non-empty for Host::parse (host_parse_ok_on), which the REAL host functions satisfy
+                              relative to the first clause of the oracle hypothesis (IdnaOut): C07_statement's clauses
+                              and all histories for the linked model against the Standard with its own host parser
+   The gap: host / hostname / pathname on file URLs (class 4 of Known_C07 covers them all), inputs and href
+   values whose scheme is "file", href values whose URL exceeds u32::MAX bytes, and host_parse_ok / host_parse_ok_on
+   (or the concrete host functions under IdnaOut) in place of hosts_agree.
    It is covered by the fixed-seed differential run implementation <-> specification model of the
    harness (a test). *)
 From Coq Require Import String.
@@ -89,7 +102,9 @@ From RU Require Import Base.Prelude Base.Utf8 Model.AsciiSet Gen.Tables Model.Pe
   Proofs.C07_SpecHost Proofs.C07_EqHostname Proofs.C07_EqSeven
   Proofs.C02_AuthParts Proofs.C03_ReachParts Proofs.C01_EqRef Proofs.C07_EqRel Proofs.C07_SpecInv Proofs.C07_ParseExtra Proofs.C07_EqParseAll
   Proofs.C07_SpecHost2 Proofs.C07_EqHostNoPort Proofs.C07_SpecHostPort Proofs.C07_EqHostPort Proofs.C07_EqNine
-  Proofs.C06_Host Proofs.C09_Host Proofs.C16_RT6Model Proofs.C07_HostReal.
+  Proofs.C06_Host Proofs.C09_Host Proofs.C16_RT6Model Proofs.C07_HostReal
+  Proofs.C07_SpecPath Proofs.C07_PathText Proofs.C07_PathKnown Proofs.C07_PathMarker Proofs.C07_EqPathname Proofs.C07_EqTen
+  Proofs.C03_ReachParts Proofs.C09_Long Proofs.C09_RealC01 Proofs.C07_SpecInvU Proofs.C07_HostOn Proofs.C07_AllOn Proofs.C07_RealOut.
 
 (* ---------- the statement ---------- *)
 
@@ -1253,6 +1268,197 @@ Proof.
   - eexists. split; [vm_compute; reflexivity|]. split; [vm_compute; repeat split|]. split; vm_compute; reflexivity.
 Qed.
 
+(* ---------- pathname; all ten setters ---------- *)
+
+(* the Standard's pathname setter in closed form, for a URL whose path is not opaque and whose scheme is not "file":
+   the path start state and the path state run WITH a state override on the value without tab / newline, from an empty
+   list of segments - '?' and '#' are ordinary code points there (they come out percent-encoded), one leading '/'
+   (or '\' on a special URL) is consumed, an empty value gives one empty segment on a special URL or when the host is
+   null and leaves the list empty otherwise (spathO: the path state; sepc: its separators) *)
+Theorem C07_pathname_standard_closed : forall shp su v, has_opaque_path su = false ->
+  list_eqb (su_scheme su) str_file = false ->
+  spec_set shp SetPathname su v = SetTo (pstartO (Whatwg.set_path su (SPList [])) (notnl v)).
+Proof. exact spec_pathname_closed. Qed.
+Check C07_pathname_standard_closed : forall shp su v, has_opaque_path su = false ->
+  list_eqb (su_scheme su) str_file = false ->
+  spec_set shp SetPathname su v
+  = SetTo (let u := Whatwg.set_path su (SPList []) in let t := notnl v in
+           if is_special u then
+             match t with
+             | c :: r => if sepc true c then Whatwg.set_path u (SPList (spathO true r [] []))
+                         else Whatwg.set_path u (SPList (spathO true t [] []))
+             | [] => Whatwg.set_path u (SPList [[]])
+             end
+           else
+             match t with
+             | c :: r => if c =? 47 then Whatwg.set_path u (SPList (spathO false r [] []))
+                         else Whatwg.set_path u (SPList (spathO false t [] []))
+             | [] => if host_is_null (su_host u) then Whatwg.set_path u (SPList [[]]) else u
+             end).
+Print Assumptions C07_pathname_standard_closed.
+
+(* the exclusions of the path equivalence are inside Known_C07, exactly as computed on the raw value:
+   class 1 (a drive-letter-shaped piece AND two adjacent dots) contains every value on which a ".." meets a
+   drive-letter-shaped last segment of the Standard's list (spath_okO, F-C07-12); class 3 (led by "//", or "//" and a
+   dot somewhere) contains every value whose new list of segments starts with an empty segment followed by another one
+   (head_empty: the Standard's serializer writes "/." when the host is null, Url::set_path does not, F-C07-2) *)
+Theorem C07_pathname_known_classes : forall sp t,
+  (has_drive_segment t && has_dotdot t = false -> spath_okO sp t [] [] = true)
+  /\ (forall c r, t = c :: r -> sepc sp c = true -> has_drive_segment t && has_dotdot t = false -> spath_okO sp r [] [] = true)
+  /\ (starts_with_byte 47 t = false -> contains_double_slash t && has_dot t = false -> head_empty (spathO false t [] []) = false)
+  /\ (forall r, t = 47 :: r -> UrlRecord.starts_with s_ss t = false -> contains_double_slash t && has_dot t = false ->
+        head_empty (spathO false r [] []) = false).
+Proof.
+  intros sp t. split; [exact (known1_okO sp t)|]. split; [intros c r ->; exact (known1_okO_tail sp c r)|].
+  split; [exact (no_marker t)|]. intros r ->. exact (no_marker_tail r).
+Qed.
+Print Assumptions C07_pathname_known_classes.
+
+(* pathname on EVERY value, outside classes 1, 3, 4, 5, 9 of Known_C07: url::quirks::set_pathname is the Standard's
+   pathname setter on every corrS-related pair - no panic, related again, same ten API strings; for URLs with an
+   authority (any host, the empty host included), without host ('/'-led path) and with an opaque path (ignored on both
+   sides).  No hypothesis on the host functions.  Url::set_path runs the path start state of parser.rs in the setter
+   context; that is the URL-parser context on the value with '?' -> "%3F", '#' -> "%23", which C01's path equivalence
+   ties to the Standard's path state. *)
+Theorem C07_pathname_equiv : forall dbg hp ho hd shp shs u su v,
+  corrS dbg shs u su -> usv_list v -> known_c07 u QPathname v = 0 ->
+  exists u' su', model_set dbg hp ho hd QPathname u v = Some u' /\ spec_step shp QPathname su v = Some su'
+    /\ corrS dbg shs u' su' /\ model_api dbg u' = Some (spec_api_list shs su').
+Proof. exact pathname_step_api. Qed.
+Check C07_pathname_equiv : forall dbg hp ho hd shp shs u su v,
+  corrS dbg shs u su -> usv_list v -> known_c07 u QPathname v = 0 ->
+  exists u' su', model_set dbg hp ho hd QPathname u v = Some u' /\ spec_step shp QPathname su v = Some su'
+    /\ corrS dbg shs u' su' /\ model_api dbg u' = Some (spec_api_list shs su').
+Print Assumptions C07_pathname_equiv.
+
+(* the hypotheses can be met: "http://h/x?q#f" .pathname = "a/../b c?d#e\f" gives "/b%20c%3Fd%23e/f" (dot segments
+   resolved, '?' '#' encoded, '\' a separator); "a://h/x" .pathname = "" empties the path; "a:/x" .pathname = "p/./q"
+   (no host) *)
+Example C07_pathname_inhabited :
+  (exists u, parse_url true ok_hp ok_ho toy_hd None None (str "http://h/x?q#f") = POk u
+     /\ known_c07 u QPathname (str "a/../b c?d#e\f") = 0
+     /\ option_map q_href (model_set true ok_hp ok_ho toy_hd QPathname u (str "a/../b c?d#e\f"))
+        = Some (str "http://h/b%20c%3Fd%23e/f?q#f"))
+  /\ (exists u, parse_url true ok_hp ok_ho toy_hd None None (str "a://h/x") = POk u
+        /\ known_c07 u QPathname [] = 0
+        /\ option_map q_href (model_set true ok_hp ok_ho toy_hd QPathname u []) = Some (str "a://h"))
+  /\ (exists u, parse_url true ok_hp ok_ho toy_hd None None (str "a:/x") = POk u
+        /\ known_c07 u QPathname (str "p/./q") = 0
+        /\ option_map q_href (model_set true ok_hp ok_ho toy_hd QPathname u (str "p/./q")) = Some (str "a:/p/q")).
+Proof.
+  split; [|split]; eexists; (split; [vm_compute; reflexivity|]); split; vm_compute; reflexivity.
+Qed.
+
+(* C07_statement's one-step clause for ALL TEN setters: one assignment preserves corrS.
+   ten_ok s v: any value for the nine setters other than href; for href a value that fits u32 and whose scheme is not
+   "file" *)
+Theorem C07_ten_setters_partial : forall dbg hp ho hd shp shs, host_parse_ok hp ho hd shp shs ->
+  forall u su s v, corrS dbg shs u su -> ten_ok shp shs s v -> usv_list v -> known_c07 u s v = 0 ->
+  exists u' su', model_set dbg hp ho hd s u v = Some u' /\ spec_step shp s su v = Some su' /\ corrS dbg shs u' su'
+    /\ model_api dbg u' = Some (spec_api_list shs su').
+Proof. exact ten_step_api. Qed.
+Check C07_ten_setters_partial : forall dbg hp ho hd shp shs, host_parse_ok hp ho hd shp shs ->
+  forall u su s v, corrS dbg shs u su ->
+  ((seven s = true \/ s = QHost \/ (s = QHref /\ href_fits shp shs v /\ input_is_file v = false)) \/ s = QPathname) ->
+  usv_list v -> known_c07 u s v = 0 ->
+  exists u' su', model_set dbg hp ho hd s u v = Some u' /\ spec_step shp s su v = Some su' /\ corrS dbg shs u' su'
+    /\ model_api dbg u' = Some (spec_api_list shs su').
+Print Assumptions C07_ten_setters_partial.
+
+(* every setter but href is covered on every value *)
+Theorem C07_ten_ok_not_href : forall shp shs s v, s <> QHref -> ten_ok shp shs s v.
+Proof. exact ten_ok_not_href. Qed.
+Print Assumptions C07_ten_ok_not_href.
+
+(* ... and so does every history of the ten: the ten API strings agree after every prefix *)
+Theorem C07_ten_histories : forall dbg hp ho hd shp shs, host_parse_ok hp ho hd shp shs ->
+  forall ops u su, corrS dbg shs u su -> ten_ops shp shs ops -> outside_known dbg hp ho hd u ops ->
+  forall n, exists u' su',
+    model_run dbg hp ho hd u (firstn n ops) = Some u'
+    /\ spec_run shp su (firstn n ops) = Some su'
+    /\ corrS dbg shs u' su'
+    /\ model_api dbg u' = Some (spec_api_list shs su').
+Proof. exact ten_histories. Qed.
+Check C07_ten_histories : forall dbg hp ho hd shp shs, host_parse_ok hp ho hd shp shs ->
+  forall ops u su, corrS dbg shs u su -> ten_ops shp shs ops -> outside_known dbg hp ho hd u ops ->
+  forall n, exists u' su',
+    model_run dbg hp ho hd u (firstn n ops) = Some u'
+    /\ spec_run shp su (firstn n ops) = Some su'
+    /\ corrS dbg shs u' su'
+    /\ model_api dbg u' = Some (spec_api_list shs su').
+Print Assumptions C07_ten_histories.
+
+(* parse (outside Known_C01, scheme not "file"), then any history of the ten setters, each step outside Known_C07: the
+   ten API strings agree at the start and after every prefix *)
+Theorem C07_ten_all : forall dbg hp ho hd shp shs, host_parse_ok hp ho hd shp shs ->
+  forall input u ops, usv_list input -> known_c01 None input = 0 -> input_is_file input = false ->
+  parse_url dbg hp ho hd None None input = POk u ->
+  ten_ops shp shs ops -> outside_known dbg hp ho hd u ops ->
+  exists su, spec_basic_url_parse shp input None = BDone su
+    /\ model_api dbg u = Some (spec_api_list shs su)
+    /\ forall n, exists u' su',
+         model_run dbg hp ho hd u (firstn n ops) = Some u'
+         /\ spec_run shp su (firstn n ops) = Some su'
+         /\ model_api dbg u' = Some (spec_api_list shs su').
+Proof. exact ten_from_parse_all. Qed.
+Check C07_ten_all : forall dbg hp ho hd shp shs, host_parse_ok hp ho hd shp shs ->
+  forall input u ops, usv_list input -> known_c01 None input = 0 -> input_is_file input = false ->
+  parse_url dbg hp ho hd None None input = POk u ->
+  ten_ops shp shs ops -> outside_known dbg hp ho hd u ops ->
+  exists su, spec_basic_url_parse shp input None = BDone su
+    /\ model_api dbg u = Some (spec_api_list shs su)
+    /\ forall n, exists u' su',
+         model_run dbg hp ho hd u (firstn n ops) = Some u'
+         /\ spec_run shp su (firstn n ops) = Some su'
+         /\ model_api dbg u' = Some (spec_api_list shs su').
+Print Assumptions C07_ten_all.
+
+(* in the shape of C07_statement: ONE abstraction relation (corrS), the parse clause, the one-step clause for ALL TEN
+   setters.  Against C07_statement (what is still missing): inputs and href values whose scheme is "file" (those inside
+   k_file_ok are outside Known_C01; host / hostname / pathname on file URLs are class 4 of Known_C07); href values whose
+   URL exceeds u32::MAX bytes; host_parse_ok instead of hosts_agree; inputs and values that are scalar-value strings. *)
+Theorem C07_statement_ten_all : forall dbg hp ho hd shp shs, host_parse_ok hp ho hd shp shs ->
+  exists R : url -> spec_url -> Prop,
+    (forall u su, R u su -> model_api dbg u = Some (spec_api_list shs su))
+    /\ (forall input u, usv_list input -> known_c01 None input = 0 -> input_is_file input = false ->
+          parse_url dbg hp ho hd None None input = POk u ->
+          exists su, spec_basic_url_parse shp input None = BDone su /\ R u su)
+    /\ (forall u su s v, R u su -> ten_ok shp shs s v -> usv_list v -> known_c07 u s v = 0 ->
+          exists u' su', model_set dbg hp ho hd s u v = Some u' /\ spec_step shp s su v = Some su' /\ R u' su').
+Proof. exact statement_ten_all. Qed.
+Check C07_statement_ten_all : forall dbg hp ho hd shp shs, host_parse_ok hp ho hd shp shs ->
+  exists R : url -> spec_url -> Prop,
+    (forall u su, R u su -> model_api dbg u = Some (spec_api_list shs su))
+    /\ (forall input u, usv_list input -> known_c01 None input = 0 -> input_is_file input = false ->
+          parse_url dbg hp ho hd None None input = POk u ->
+          exists su, spec_basic_url_parse shp input None = BDone su /\ R u su)
+    /\ (forall u su s v, R u su ->
+          ((seven s = true \/ s = QHost \/ (s = QHref /\ href_fits shp shs v /\ input_is_file v = false)) \/ s = QPathname) ->
+          usv_list v -> known_c07 u s v = 0 ->
+          exists u' su', model_set dbg hp ho hd s u v = Some u' /\ spec_step shp s su v = Some su' /\ R u' su').
+Print Assumptions C07_statement_ten_all.
+
+(* the hypotheses can be met: on "a://h/p", href := " hTTps:\\u:p@H.x:0443/a/../b?q#f", pathname := "x/../y z?#\w",
+   host := "y.z:8080\w", pathname := "" (a special URL: one empty segment), protocol := "ws" *)
+Example C07_ten_inhabited :
+  let ops := [(QHref, str " hTTps:\\u:p@H.x:0443/a/../b?q#f"); (QPathname, str "x/../y z?#\w"); (QHost, str "y.z:8080\w");
+              (QPathname, []); (QProtocol, str "ws")] in
+  ten_ops ok_shp toy_shs ops
+  /\ exists u, parse_url true ok_hp ok_ho toy_hd None None (str "a://h/p") = POk u
+       /\ outside_known true ok_hp ok_ho toy_hd u ops
+       /\ option_map q_href (model_run true ok_hp ok_ho toy_hd u (firstn 2 ops)) = Some (str "https://u:p@H.x/y%20z%3F%23/w?q#f")
+       /\ option_map q_href (model_run true ok_hp ok_ho toy_hd u ops) = Some (str "ws://u:p@y.z:8080/?q#f").
+Proof.
+  cbv zeta. split.
+  - cbn [ten_ops]. split; [left; right; right; split; [reflexivity|]; split; [unfold href_fits; vm_compute; discriminate | vm_compute; reflexivity]|].
+    split; [repeat constructor; vm_compute; auto|]. split; [right; reflexivity|].
+    split; [repeat constructor; vm_compute; auto|]. split; [left; right; left; reflexivity|].
+    split; [repeat constructor; vm_compute; auto|]. split; [right; reflexivity|].
+    split; [constructor|]. split; [left; left; reflexivity|].
+    split; [repeat constructor; vm_compute; auto | exact I].
+  - eexists. split; [vm_compute; reflexivity|]. split; [vm_compute; repeat split|]. split; vm_compute; reflexivity.
+Qed.
+
 (* ---------- the host hypothesis for the real host functions ---------- *)
 
 (* host_fn_ok (the per-string content of host_fns_ok / host_parse_ok: same success, same text, host_disp_ok, empty host
@@ -1300,6 +1506,138 @@ Theorem C07_host_fns_special_empty_string : forall idna, idna [] = Some [97] ->
   ~ host_fn_ok (host_parse idna) host_display (spec_host_parser idna) spec_host_serializer false.
 Proof. exact host_fn_ok_special_empty_string. Qed.
 Print Assumptions C07_host_fns_special_empty_string.
+
+(* ---------- the statement relative to the oracle's first clause only ---------- *)
+
+(* the host hypothesis restricted to the strings that are ever handed to the host functions: agreement on scalar-value
+   strings, non-empty for Host::parse (host_fns_ok_on); with HostWf and the empty host's empty text: host_parse_ok_on.
+   host_parse_ok implies it. *)
+Theorem C07_host_parse_ok_on_of_all : forall hp ho hd shp shs,
+  host_parse_ok hp ho hd shp shs -> host_parse_ok_on hp ho hd shp shs.
+Proof. exact host_parse_ok_on_of_all. Qed.
+Check C07_host_parse_ok_on_of_all : forall hp ho hd shp shs,
+  host_parse_ok hp ho hd shp shs ->
+  ((forall s, usv_list s -> s <> [] -> host_fn_ok_at hp hd shp shs false s)
+   /\ (forall s, usv_list s -> host_fn_ok_at ho hd shp shs true s))
+  /\ HostWf hp ho hd /\ shs SEmpty = [].
+Print Assumptions C07_host_parse_ok_on_of_all.
+
+(* hostname and host under the restricted hypothesis: one assignment queries the host functions on ONE string, the
+   buffer of the host scan of the value - a sub-string of the value, never empty for Host::parse; replacing the host
+   functions by wrappers that answer like them on that buffer and fail elsewhere (they satisfy host_fns_ok) is seen by
+   neither side *)
+Theorem C07_hostname_host_equiv_on : forall dbg hp ho hd shp shs, host_fns_ok_on hp ho hd shp shs ->
+  forall u su s v, corrS dbg shs u su -> (s = QHostname \/ s = QHost) -> usv_list v -> known_c07 u s v = 0 ->
+  exists u' su', model_set dbg hp ho hd s u v = Some u' /\ spec_step shp s su v = Some su' /\ corrS dbg shs u' su'.
+Proof.
+  intros dbg hp ho hd shp shs HO u su s v C [-> | ->] Hv Hk;
+    [exact (hostname_step_on dbg hp ho hd shp shs HO u su v C Hv Hk) | exact (host_step_on dbg hp ho hd shp shs HO u su v C Hv Hk)].
+Qed.
+Print Assumptions C07_hostname_host_equiv_on.
+
+(* C07_statement's three clauses under host_parse_ok_on, all ten setters (all_ok s v: any value for the nine setters
+   other than href; for href a value that fits u32 and whose scheme is not "file").  The parse clause: C01's host
+   hypothesis is needed on one sub-string of the input; the text of the Standard's host is non-empty because the host is
+   a host-parser result on a scalar-value buffer, non-empty when not opaque (Proofs/C07_SpecInvU.v) *)
+Theorem C07_statement_on : forall dbg hp ho hd shp shs, host_parse_ok_on hp ho hd shp shs ->
+  exists R : url -> spec_url -> Prop,
+    (forall u su, R u su -> model_api dbg u = Some (spec_api_list shs su))
+    /\ (forall input u, usv_list input -> known_c01 None input = 0 -> input_is_file input = false ->
+          parse_url dbg hp ho hd None None input = POk u ->
+          exists su, spec_basic_url_parse shp input None = BDone su /\ R u su)
+    /\ (forall u su s v, R u su -> all_ok shp shs s v -> usv_list v -> known_c07 u s v = 0 ->
+          exists u' su', model_set dbg hp ho hd s u v = Some u' /\ spec_step shp s su v = Some su' /\ R u' su').
+Proof. exact statement_all_on. Qed.
+Check C07_statement_on : forall dbg hp ho hd shp shs, host_parse_ok_on hp ho hd shp shs ->
+  exists R : url -> spec_url -> Prop,
+    (forall u su, R u su -> model_api dbg u = Some (spec_api_list shs su))
+    /\ (forall input u, usv_list input -> known_c01 None input = 0 -> input_is_file input = false ->
+          parse_url dbg hp ho hd None None input = POk u ->
+          exists su, spec_basic_url_parse shp input None = BDone su /\ R u su)
+    /\ (forall u su s v, R u su -> (s <> QHref \/ (href_fits shp shs v /\ input_is_file v = false)) -> usv_list v ->
+          known_c07 u s v = 0 ->
+          exists u' su', model_set dbg hp ho hd s u v = Some u' /\ spec_step shp s su v = Some su' /\ R u' su').
+Print Assumptions C07_statement_on.
+
+(* the REAL host functions - Host::parse with a domain-to-ASCII oracle, Host::parse_opaque, Display against the
+   Standard's host parser over the same oracle and the Standard's host serializer - satisfy host_parse_ok_on as soon as
+   every output of the oracle is ASCII outside the deny list (IdnaOut: the first clause of IdnaOK and of IdnaOK2; no
+   idempotence) *)
+Theorem C07_real_host_parse_ok_on : forall idna, IdnaOut idna ->
+  host_parse_ok_on (host_parse idna) host_parse_opaque host_display (spec_host_parser idna) spec_host_serializer.
+Proof. exact real_host_parse_ok_on_out. Qed.
+Check C07_real_host_parse_ok_on : forall idna,
+  (forall bs d, idna bs = Some d -> Forall dom_char_ok d) ->
+  host_parse_ok_on (host_parse idna) host_parse_opaque host_display (spec_host_parser idna) spec_host_serializer.
+Print Assumptions C07_real_host_parse_ok_on.
+
+(* PARTIAL C07_statement for the linked model (parser + setters + host model of Model/Host.v) against the Standard's
+   parser and setters with the Standard's host parser (Spec/WhatwgHostParse.v) over the same oracle, relative to IdnaOut
+   only.  Against C07_statement: hosts_agree is replaced by the concrete host functions; still missing: file inputs /
+   file href values (host / hostname / pathname on file URLs: class 4), href values beyond u32::MAX bytes; inputs and
+   values are scalar-value strings *)
+Theorem C07_statement_model : forall dbg idna, IdnaOut idna ->
+  exists R : url -> spec_url -> Prop,
+    (forall u su, R u su -> model_api dbg u = Some (spec_api_list spec_host_serializer su))
+    /\ (forall input u, usv_list input -> known_c01 None input = 0 -> input_is_file input = false ->
+          parse_url dbg (host_parse idna) host_parse_opaque host_display None None input = POk u ->
+          exists su, spec_basic_url_parse (spec_host_parser idna) input None = BDone su /\ R u su)
+    /\ (forall u su s v, R u su -> all_ok (spec_host_parser idna) spec_host_serializer s v -> usv_list v ->
+          known_c07 u s v = 0 ->
+          exists u' su', model_set dbg (host_parse idna) host_parse_opaque host_display s u v = Some u'
+            /\ spec_step (spec_host_parser idna) s su v = Some su' /\ R u' su').
+Proof. exact statement_model_out. Qed.
+Check C07_statement_model : forall dbg idna, (forall bs d, idna bs = Some d -> Forall dom_char_ok d) ->
+  exists R : url -> spec_url -> Prop,
+    (forall u su, R u su -> model_api dbg u = Some (spec_api_list spec_host_serializer su))
+    /\ (forall input u, usv_list input -> known_c01 None input = 0 -> input_is_file input = false ->
+          parse_url dbg (host_parse idna) host_parse_opaque host_display None None input = POk u ->
+          exists su, spec_basic_url_parse (spec_host_parser idna) input None = BDone su /\ R u su)
+    /\ (forall u su s v, R u su ->
+          (s <> QHref \/ (href_fits (spec_host_parser idna) spec_host_serializer v /\ input_is_file v = false)) ->
+          usv_list v -> known_c07 u s v = 0 ->
+          exists u' su', model_set dbg (host_parse idna) host_parse_opaque host_display s u v = Some u'
+            /\ spec_step (spec_host_parser idna) s su v = Some su' /\ R u' su').
+Print Assumptions C07_statement_model.
+
+(* ... and its histories: parse, then any history of the ten setters, each step outside Known_C07 *)
+Theorem C07_model_histories : forall dbg idna, IdnaOut idna ->
+  forall input u ops, usv_list input -> known_c01 None input = 0 -> input_is_file input = false ->
+  parse_url dbg (host_parse idna) host_parse_opaque host_display None None input = POk u ->
+  all_ops (spec_host_parser idna) spec_host_serializer ops ->
+  outside_known dbg (host_parse idna) host_parse_opaque host_display u ops ->
+  exists su, spec_basic_url_parse (spec_host_parser idna) input None = BDone su
+    /\ model_api dbg u = Some (spec_api_list spec_host_serializer su)
+    /\ forall n, exists u' su',
+         model_run dbg (host_parse idna) host_parse_opaque host_display u (firstn n ops) = Some u'
+         /\ spec_run (spec_host_parser idna) su (firstn n ops) = Some su'
+         /\ model_api dbg u' = Some (spec_api_list spec_host_serializer su').
+Proof. exact model_histories_out. Qed.
+Check C07_model_histories : forall dbg idna, IdnaOut idna ->
+  forall input u ops, usv_list input -> known_c01 None input = 0 -> input_is_file input = false ->
+  parse_url dbg (host_parse idna) host_parse_opaque host_display None None input = POk u ->
+  all_ops (spec_host_parser idna) spec_host_serializer ops ->
+  outside_known dbg (host_parse idna) host_parse_opaque host_display u ops ->
+  exists su, spec_basic_url_parse (spec_host_parser idna) input None = BDone su
+    /\ model_api dbg u = Some (spec_api_list spec_host_serializer su)
+    /\ forall n, exists u' su',
+         model_run dbg (host_parse idna) host_parse_opaque host_display u (firstn n ops) = Some u'
+         /\ spec_run (spec_host_parser idna) su (firstn n ops) = Some su'
+         /\ model_api dbg u' = Some (spec_api_list spec_host_serializer su').
+Print Assumptions C07_model_histories.
+
+(* the premise holds of an oracle that satisfies IdnaOK2 (the real idna crate up to Known_C10) or IdnaOK; it is met by
+   the oracle idna_clean, with which the model computes: "http://ExAmple.com/p" .hostname = "x.Y", .pathname = "a/../b" *)
+Example C07_statement_model_inhabited :
+  (forall idna, IdnaOK2 idna -> IdnaOut idna) /\ (forall idna, IdnaOK idna -> IdnaOut idna) /\ IdnaOut idna_clean
+  /\ exists u, parse_url true (host_parse idna_clean) host_parse_opaque host_display None None (str "http://example.com/p") = POk u
+       /\ outside_known true (host_parse idna_clean) host_parse_opaque host_display u [(QHostname, str "x.y"); (QPathname, str "a/../b")]
+       /\ option_map q_href (model_run true (host_parse idna_clean) host_parse_opaque host_display u
+                               [(QHostname, str "x.y"); (QPathname, str "a/../b")]) = Some (str "http://x.y/b").
+Proof.
+  split; [exact IdnaOK2_out|]. split; [exact IdnaOK_out|]. split; [exact (IdnaOK_out idna_clean idna_clean_ok)|].
+  eexists. split; [vm_compute; reflexivity|]. split; [vm_compute; repeat split | vm_compute; reflexivity].
+Qed.
 
 (* ---------- clauses of the Standard's setters, for all records and values ---------- *)
 
